@@ -361,3 +361,65 @@ func Harness_C13_expiry() {
 	VerifAssert(sameLogs(scanAllLogs(after, "after-scan"), specExpire(logsBefore, exp)), "expiry-wrong-entries")
 	VerifCover("done")
 }
+
+// faultySource fails its n-th ReadBlock, once (harness-side fault injection: the model file system itself has no I/O faults).
+type faultySource struct {
+	BlockSource
+	left int
+}
+
+func (f *faultySource) ReadBlock(off uint64, size int) ([]byte, error) {
+	f.left--
+	if f.left == -1 {
+		return nil, fmtError
+	}
+	return f.BlockSource.ReadBlock(off, size)
+}
+
+// Harness_C07_readfault: a compaction whose input cannot be read completely fails and changes nothing; it never commits a partial merge.
+// bounds: stack of 2 tables on the (modelled) filesystem, the lower one with 3 ref blocks (14 refs, BlockSize 256) and 2 reflog entries; one read of the lower table's block source fails, the k-th, k = 0..7 (or none); CompactAll; then a fresh handle's refs and reflog against the view before
+// assumes: the only I/O fault is a failing ReadBlock of one table (injected by the harness)
+// covers: failed, compacted
+func Harness_C07_readfault() {
+	cfg := stackCfg(0)
+	dir := VerifTempDir()
+	st := mustOpen(dir, cfg, "open")
+	if st == nil {
+		return
+	}
+	VerifAssert(st.Add(func(w *Writer) error {
+		w.SetLimits(1, 1)
+		for i := 0; i < 14; i++ {
+			if err := w.AddRef(&RefRecord{RefName: shapeName(i), UpdateIndex: 1, Value: hashWith(20, byte(i), 1)}); err != nil {
+				return err
+			}
+		}
+		for i := 0; i < 2; i++ {
+			if err := w.AddLog(&LogRecord{RefName: shapeName(i), UpdateIndex: 1, Time: uint64(i + 1), New: hashWith(20, byte(i), 2), Old: hashWith(20, 0, 0), Message: "m\n"}); err != nil {
+				return err
+			}
+		}
+		return nil
+	}) == nil, "add-lower")
+	VerifAssert(addTxn(st, 7, true) == nil, "add-upper")
+	before := snapshot(st, "before")
+	k := VerifIntRange(0, 8)
+	if k < 8 {
+		st.stack[0].src = &faultySource{BlockSource: st.stack[0].src, left: k}
+	}
+	err := st.CompactAll(nil)
+	if err != nil {
+		VerifCover("failed")
+	} else {
+		VerifCover("compacted")
+	}
+	fin := mustOpen(dir, cfg, "reopen")
+	if fin == nil {
+		return
+	}
+	after := snapshot(fin, "after")
+	VerifAssert(after.ok && len(after.refs) == len(before.refs) && after.logs == before.logs, "compaction-with-read-fault-changed-the-view")
+	for n, v := range before.refs {
+		VerifAssert(after.refs[n] == v, "compaction-with-read-fault-changed-a-ref")
+	}
+}
